@@ -346,6 +346,34 @@ func (g *G) versioned() (*ASpec, *ASpec) {
 	return mk("A", 1), mk("B", 2)
 }
 
+// reviseCopy: Spec.Copy, then every branch of the copy gets another pattern, guard and target, every action another
+// source, and the copy is compiled (force).  The result is thrown away.
+func reviseCopy(spec *core.Spec) {
+	cp := spec.Copy("revision")
+	for _, n := range cp.Nodes {
+		if n == nil {
+			continue
+		}
+		if n.ActionSource != nil {
+			n.ActionSource.Source = "return {\"revised\": true};"
+			n.Action = nil
+		}
+		if n.Branches == nil {
+			continue
+		}
+		for _, b := range n.Branches.Branches {
+			if b == nil {
+				continue
+			}
+			b.Pattern = map[string]interface{}{"revised": "?r"}
+			b.GuardSource = &core.ActionSource{Interpreter: "ecmascript", Source: "return null;"}
+			b.Guard = nil
+			b.Target = "revised-" + b.Target
+		}
+	}
+	cp.Compile(context.Background(), interpreters(), true)
+}
+
 func specswapComponent(g *G, n int, opts map[string]string) *Out {
 	procs := procsList(opts)
 	o := newOut("Corr.SpecCorr", "swcase")
@@ -404,6 +432,12 @@ func specswapComponent(g *G, n int, opts map[string]string) *Out {
 			go func(k int) {
 				defer writers.Done()
 				for i := 0; atomic.LoadInt32(&stop) == 0; i++ {
+					if i%8 == 3 {
+						// how a host prepares a revision: copy the installed version, edit the copy, compile it - the
+						// installed version keeps serving meanwhile and must not be touched by any of that
+						reviseCopy(specA)
+						reviseCopy(specB)
+					}
 					if (i+k)%2 == 0 {
 						u.SetSpec(specB)
 					} else {
